@@ -159,6 +159,58 @@ theorem c07_first_run_all {n : Nat} (hn : n < 2^63) (P : Script) (fuel : Nat) (o
     ⟨hpos, hm, fun hh => hnot ⟨hh.2, hh.1.symm⟩⟩
   exact if_pos hcond
 
+/-! ### The comparator, generated from /repo, and the dependency on C06 -/
+
+/-- `s_compare_timestamps`, re-translated from task_scheduler.c on every run (`Gen/HeapIdx.lean`), used with the
+queue's test `pred(a, b) > 0` on its C `int` result, is "greater than" on all pairs of `uint64_t` timestamps, and
+the comparator `tsCmp` built from it is a total preorder (`CmpOK`), i.e. satisfies the hypothesis of every C06
+theorem. -/
+theorem c07_comparator :
+    (∀ a b, a < 2^64 → b < 2^64 →
+      ((0 < Gen.HeapIdx.s_compare_timestamps a b ∧ Gen.HeapIdx.s_compare_timestamps a b < 2^31) ↔ a > b)) ∧
+    (∀ a b, a < 2^64 → b < 2^64 → (tsCmp.gt a b = true ↔ a > b)) ∧
+    CmpOK tsCmp :=
+  ⟨fun _ _ ha hb => compare_timestamps_pos_iff ha hb, fun _ _ ha hb => tsCmp_gt_iff ha hb, tsCmp_ok⟩
+
+/-- The scheduler's timed queue IS the C06 heap (`Model/Heap.lean`) keyed by timestamp with the generated
+comparator `tsCmp`; the C07 proofs use the C06 results through their per-operation forms, instantiated at
+`tsCmp_ok`: `pushRef_spec` (schedule_future; behind `c06_heap_inv` / `c06_multiset` / `c06_handle_tracks`),
+`removeNode_spec` (the pops of `run_all` and the removal by handle in `cancel_task`; behind `c06_pop_min`,
+`c06_handle_tracks`), `root_min` (`has_tasks` and the due tests; = `c06_top_min`), `remove_live` / `remove_stale`
+(= `c06_handle_tracks` / `c06_stale_refused`).  What they give in every state a terminating program reaches:
+the C06 queue invariant for `timed` with handle `t` owning element `(ts t, t)` — heap order under `tsCmp`, the
+back-pointer/handle bijection — every task in the heap has its handle on its own element (so `cancel_task` removes
+exactly it), a task not in the heap has a stale handle (`remove` by it would be refused with `BAD_NODE` and change
+nothing), and `top` is a minimum timestamp. -/
+theorem c07_uses_c06 {n : Nat} (hn : n < 2^63) (P : Script) (fuel : Nat) (ops : List Sched.Op)
+    (s : St) (hs : s = runOps fuel P (St.init n) ops) (hd : s.diverged = false) :
+    AwsVerif.Proofs.C06.QInv tsCmp s.timed (fun t => some ⟨s.ts t, t⟩) s.timed.items.toList ∧
+    HeapOrd tsCmp s.timed.items ∧ BpOK s.timed ∧
+    (∀ e ∈ s.timed.items.toList, s.scheduled e.uid = true ∧ e.key = s.ts e.uid ∧
+        ∃ i, s.timed.handles e.uid = some i ∧ s.timed.items[i]? = some e) ∧
+    (∀ t, (∀ e ∈ s.timed.items.toList, e.uid ≠ t) →
+        s.timed.handles t = none ∧ remove tsCmp s.timed t = (s.timed, .error .badNode)) ∧
+    (∀ e, top s.timed = .ok e → ∀ x ∈ s.timed.items.toList, e.key ≤ x.key) := by
+  subst hs
+  have hg := (good_of_not_diverged (reach_good hn P fuel ops).1 hd).sinv
+  refine ⟨hg.heap, hg.heap.heap, hg.heap.frame.bpok, ?_, ?_, ?_⟩
+  · intro e he
+    have hm : e.uid ∈ heapTasks (runOps fuel P (St.init n) ops) := mem_heapTasks.mpr ⟨e, he, rfl⟩
+    obtain ⟨i, hi, hit⟩ := heap_live hg hm
+    refine ⟨sched_of_mem_heap hg hm, hg.heapKey e he, i, hi, ?_⟩
+    rw [hit, ← hg.heapKey e he]
+  · intro t ht
+    have hnm : t ∉ heapTasks (runOps fuel P (St.init n) ops) := by
+      intro hm
+      obtain ⟨e, he, hu⟩ := mem_heapTasks.mp hm
+      exact ht e he hu
+    have hdead := not_heap_dead hg hnm
+    exact ⟨hdead, AwsVerif.Proofs.C06.remove_stale hdead⟩
+  · intro e htop x hx
+    have := heap_root_le hg htop (t := x.uid) (mem_heapTasks.mpr ⟨x, hx, rfl⟩)
+    rw [hg.heapKey x hx]
+    exact this
+
 /-! A non-trivial program satisfying the hypotheses: three tasks, a script that re-schedules its own task
 and cancels a task of the same batch, the `timed_list` fall-back, and a clean-up. -/
 
